@@ -264,6 +264,20 @@ func solveAll(e *Exec, res *HarnessResult, prop string, timeoutS int, meta *Harn
 			}
 			validate := !meta.Conc && meta.Opts["noreplay"] == "" && os.Getenv("VERIF_NOREPLAY") == "" && res.Validated < 2 && !e.fpRelaxed
 			r := e.decide(asserts, timeoutS, meta.Solver, cd, validate)
+			if r.res == "unknown" && e.fpRelaxed && len(roundedPairs) > 0 {
+				// a reachability witness only has to exist: look for one in which no float operation rounds (error 0
+				// is within the relaxation, so sat here implies sat of the original query)
+				strong := append([]*Term(nil), asserts...)
+				for _, pr := range roundedPairs {
+					strong = append(strong, Eq(pr[1], pr[0]))
+				}
+				r2 := e.decide(strong, timeoutS, meta.Solver, "", false)
+				if r2.res == "sat" {
+					r2.dur += r.dur
+					r2.solver += " (witness without rounding error)"
+					r = r2
+				}
+			}
 			or.Res, or.Solver, or.SolverS = r.res, r.solver, r.dur
 			if validate && r.res == "sat" && r.model != nil {
 				// translator validation: a witness of this reachable point is run natively; since every assertion
